@@ -60,7 +60,8 @@ impl Byte32 {
     #[verifier::external_body]
     pub fn to_entity(&self) -> (r: Byte32) ensures r@ == self@ { unimplemented!() }
 }
-pub struct RawSlice { pub x: u8 }
+// the bytes of a message table; `extra` = the number of fields beyond the base layout that the table really has
+pub struct RawSlice { pub extra: usize }
 pub struct SendBlocksProofReader<'a> {
     pub last: &'a VerifiableHeaderPacked, pub prf: &'a Vec<HeaderDigestReader>, pub hdrs: &'a Vec<HeaderReaderP>,
     pub missing: &'a Vec<Byte32>, pub extra_fields: usize,
@@ -73,13 +74,15 @@ impl<'a> SendBlocksProofReader<'a> {
     pub fn missing_block_hashes(&self) -> (r: Byte32VecReader<'a>) ensures r.items == self.missing { Byte32VecReader { items: self.missing } }
     pub fn count_extra_fields(&self) -> (r: usize) ensures r == self.extra_fields { self.extra_fields }
     #[verifier::external_body]
-    pub fn as_slice(&self) -> (r: RawSlice) { unimplemented!() }
+    pub fn as_slice(&self) -> (r: RawSlice) ensures r.extra == self.extra_fields { unimplemented!() }
 }
-// v1 view over the same bytes (new_unchecked): the two extra fields
+// v1 view over the same bytes (new_unchecked): the two extra fields.  molecule: reading a field that the table does not have
+// reads its offset from past the offset header and panics (slice index out of range) - so the V1 view may only be taken of a
+// table that really has the two extra fields
 pub struct SendBlocksProofV1Reader<'a> { pub v1_uncles: &'a Vec<Byte32>, pub v1_exts: &'a Vec<BytesOptReader> }
 impl<'a> SendBlocksProofV1Reader<'a> {
     #[verifier::external_body]
-    pub fn new_unchecked(s: RawSlice) -> (r: SendBlocksProofV1Reader<'a>) { unimplemented!() }
+    pub fn new_unchecked(s: RawSlice) -> (r: SendBlocksProofV1Reader<'a>) requires s.extra >= 2 { unimplemented!() }
     pub fn blocks_uncles_hash(&self) -> (r: Byte32VecReader<'a>) ensures r.items == self.v1_uncles { Byte32VecReader { items: self.v1_uncles } }
     pub fn blocks_extension(&self) -> (r: BytesOptVecReader<'a>) ensures r.items == self.v1_exts { BytesOptVecReader { items: self.v1_exts } }
 }
